@@ -31,7 +31,7 @@ fn art<V>(v: V, os: Os, arch: Arch, i: usize) -> Artifact<V, (), Option<()>> { A
 pub fn inventory(thorough: bool) -> Report {
     let maxn = if thorough { 5 } else { 4 };
     let mut r = Report::new(
-        "every inventory with up to N artifacts over versions {0,1,2} (total order) resp. {0,1}x{0,1} (product order, incomparable pairs) x {linux, darwin} x {amd64, arm64}, duplicates allowed, every query (os, arch, requirement 'at most v'): resolve/partial_resolve return an artifact that matches os, arch and requirement and that no other matching artifact exceeds, and None only when nothing matches; inventory -> TOML -> inventory gives equal artifacts; checksum strings over a hex/non-hex alphabet around the valid lengths; non-trivial = queries with at least two matching artifacts",
+        "every inventory with up to N artifacts over versions {0,1,2} (total order) resp. {0,1,2}x{0,1,2} (product order, incomparable pairs; up to 3 artifacts) x {linux, darwin} x {amd64, arm64}, duplicates allowed, every query (os, arch, requirement 'at most v'): resolve/partial_resolve return an artifact that matches os, arch and requirement and that no other matching artifact exceeds, and None only when nothing matches; inventory -> TOML -> inventory gives equal artifacts; checksum strings over a hex/non-hex alphabet around the valid lengths; non-trivial = queries with at least two matching artifacts",
         &format!("N <= {maxn} artifacts"),
     );
     let oss = [Os::Linux, Os::Darwin]; let archs = [Arch::Amd64, Arch::Arm64];
@@ -61,8 +61,9 @@ pub fn inventory(thorough: bool) -> Report {
         }
     }
     // ---- partial (product) order
-    let pch: Vec<(u8, u8)> = vec![(0, 0), (0, 1), (1, 0), (1, 1)];
-    for n in 0..=maxn + 1 {
+    // {0,1,2}x{0,1,2}: rich enough for 'a maximum, then an element incomparable with it, then a smaller element incomparable with that one'
+    let pch: Vec<(u8, u8)> = { let mut v = vec![]; for a in 0..3u8 { for b in 0..3u8 { v.push((a, b)); } } v };
+    for n in 0..=3usize.max(maxn.min(3)) {
         idx.clear(); idx.resize(n, 0);
         loop {
             let mut inv: Inventory<Prod, (), Option<()>> = Inventory::new();
